@@ -601,7 +601,10 @@ def r7_failed_destroy_keeps_object(ctx, prog):
     if not sf.sites:
         r.undecided(g['qname'], 'instance invalidated', 'no invalidate() call found', file=g['file'], line=g['line'])
     for (_, line), hits in sorted(sf.sites.items()):
-        bad = [h for h in hits if not any(t and re.match(r'remove(@\d+)?\(tokenDir,', a) for a, t in h['facts'])]
+        # a true `remove(...)` fact that is a call of Directory::remove (resolved callee; the receiver may be the member or an alias of it)
+        rm = [c for c in calls(g['body'], short='remove')]
+        all_dir = bool(rm) and all(c.get('callee') == 'Directory::remove' for c in rm)
+        bad = [h for h in hits if not any(t and all_dir and re.match(r'remove(@\d+)?\(', a) for a, t in h['facts'])]
         site = 'instance invalidated@%d' % line
         if bad:
             r.violation(g['qname'], site, 'the in-memory object is invalidated before its file was removed: a removal that fails leaves the object on disk but invisible and unusable in this process', file=g['file'], line=line, path=bad[0]['path'])
